@@ -52,6 +52,14 @@ Proof. exact local_all_inline. Qed.
 Theorem C04_local_never_throttled : forall s, s_local s = true -> fate_of_setup s <> ThrottledNoPenalty.
 Proof. exact local_never_throttled. Qed.
 
+(* the bounded validation queue in front of the pipeline: when it is full a remote message that validators apply to is
+   dropped without penalty and without being delivered; delivery always needs the pipeline's Deliver *)
+Theorem C04_queue_full_drops : forall s, queued s = true -> fate_q s true = ThrottledNoPenalty.
+Proof. exact queue_full_drops. Qed.
+Theorem C04_deliver_needs_pipeline : forall s q, fate_q s q = Deliver -> fate_of_setup s = Deliver /\ (q = false \/ queued s = false).
+Proof. exact deliver_q_needs_pipeline. Qed.
+Print Assumptions C04_deliver_needs_pipeline.
+
 Example C04_nonvacuous :
   let s := {| s_vals := [{| v_inline := true; v_res := Other |}; {| v_inline := false; v_res := Acc |};
                          {| v_inline := false; v_res := Rej |}; {| v_inline := false; v_res := Ign |}];
